@@ -26,3 +26,4 @@ run 9f4bb17 C10
 run d82c9f9 C02
 run 52f7a89 C01 C19
 run 81229cd C14
+run 09ad5cf C19
